@@ -66,7 +66,7 @@ def h_event(cfg):
             b0 = (tmo.ok, tmo.value)
             try:
                 if second == 'succeed':
-                    tmo.succeed(V + 1)
+                    tmo.succeed(tmo.value if cfg.get('second_same') else V + 1)
                 else:
                     tmo.fail(Boom(V + 1))
                 fail('c02.second-trigger-raises', 'no RuntimeError for a pending Timeout')
@@ -80,9 +80,10 @@ def h_event(cfg):
             before = (E.ok, E.value, env.peek())
             try:
                 if second == 'succeed':
-                    E.succeed(V + 1)
+                    # 'same': the very value object of the first trigger (repeating a notification is still a second trigger)
+                    E.succeed(E.value if cfg.get('second_same') and E.ok else V + 1)
                 else:
-                    E.fail(Boom(V + 1))
+                    E.fail(E.value if cfg.get('second_same') and not E.ok else Boom(V + 1))
                 fail('c02.second-trigger-raises', 'no RuntimeError')
             except RuntimeError:
                 cover('second-trigger-refused')
@@ -291,6 +292,9 @@ def jobs(tier, seed):
                 # second attempt in the same step as the first trigger (triggered, not yet processed)
                 js.append({'harness': 'event', 'weight': 8,
                            'cfg': {'target': target, 'waiters': [P, C], 'sorts': 'int', 'second': sec, 'second_when': 'same-step'}})
+                js.append({'harness': 'event', 'weight': 8,
+                           'cfg': {'target': target, 'waiters': [P, C], 'sorts': 'int', 'second': sec, 'second_same': True,
+                                   'second_when': 'same-step' if sec == 'succeed' else 'later'}})
                 if tier != 'quick':
                     for ws in ([P, Pn, C], [C, P, P]):
                         for when in ('same-step', 'later'):
